@@ -117,7 +117,7 @@ theorem getMore_spec (mf : Nat) (s : BS) (g : Good mf s) (hn : s.sb.next = s.sb.
     (getMore mf s).2.line = s.line ∧ (getMore mf s).2.col = s.col ∧ (getMore mf s).2.tvlen = s.tvlen ∧
     (getMore mf s).2.ttype = s.ttype ∧ (getMore mf s).2.remaining = s.remaining ∧
     ((getMore mf s).1 = false → s.remaining = [] ∧ (getMore mf s).2.fs.atEof = true ∧
-        (getMore mf s).2.sb.next = (getMore mf s).2.sb.limit) ∧
+        (getMore mf s).2.sb.next = (getMore mf s).2.sb.limit ∧ (getMore mf s).2.sb.limit < (getMore mf s).2.sb.size) ∧
     ((getMore mf s).1 = true → (getMore mf s).2.sb.next < (getMore mf s).2.sb.limit ∧
         (getMore mf s).2.src.flat.length < s.src.flat.length) := by
   have m := makeRoom_spec mf s.sb g.inv
@@ -136,7 +136,7 @@ theorem getMore_spec (mf : Nat) (s : BS) (g : Good mf s) (hn : s.sb.next = s.sb.
     have hfl := hs.2.2 g.eof hat
     have h1 := hs.1
     rw [he, hfl, normFrom_nil, List.nil_append] at h1
-    refine ⟨⟨m.1, rm.2, g.mf, hs.2.1, fun _ => hfl⟩, m.2.1, m.2.2.1, rfl, rfl, rfl, rfl, ?_, fun _ => ⟨?_, hat, hun.2⟩, fun h => by simp at h⟩
+    refine ⟨⟨m.1, rm.2, g.mf, hs.2.1, fun _ => hfl⟩, m.2.1, m.2.2.1, rfl, rfl, rfl, rfl, ?_, fun _ => ⟨?_, hat, hun.2, by have := rm.1; simp only [SB.room] at this; show (makeRoom mf s.sb).limit < (makeRoom mf s.sb).size; omega⟩, fun h => by simp at h⟩
     · show (makeRoom mf s.sb).unread ++ normFrom _ _ = s.remaining
       rw [hun.1, hfl, normFrom_nil, hrem0, ← h1]; rfl
     · rw [hrem0, ← h1]
